@@ -144,7 +144,7 @@ pub fn run(tier: Tier, seed: u64) -> i32 {
             (1usize..=4096, any::<u8>(), any::<u64>(), prop_oneof![Just(0usize), 1usize..=600], any::<bool>(), prop_oneof![Just(0usize), Just(1), Just(2)], crate::gens::gen_sched(2, true))
                 .prop_map(|(len, choice_mode, seed, len2, sender_first, cap, sched)| Case { len, choice_mode, seed, len2, sender_first, cap, sched })
         };
-        prop_search(&ctx, "random", tier.pick(150, 3000), g, test_case);
+        prop_search(&ctx, "random", tier.pick(150, 20000), g, test_case);
     }
     ctx.finish()
 }
